@@ -176,6 +176,50 @@ PROPS.update({
         design_ref="DESIGN.md §6 C14"),
 })
 
+OBS_RULE = ("engine obs — exhaustive: every sequence of depth 2 (thorough 3) over a 35-call alphabet and of depth 3 (thorough 4) over a 22-call alphabet "
+            "(set / set_if_not_eq equal+different / set_if_hash_not_eq same+different hash / take / update / update_if true+false, direct and through a write guard; "
+            "subscribe, subscribe_reset, poll, next_now, get, reset, clone, clone_reset, drop of subscribers; clone, drop, downgrade, upgrade, drop-weak, into_shared, counts), "
+            "on a unique Observable and on a SharedObservable, starting with one parked subscriber and ending with polls of every subscriber, drop of every owner, polls again and "
+            "upgrades; random: 2500 (thorough 20000) histories of 10..50 calls. The element type has PartialEq on v%8 and Hash on v/8 so equal-but-different-hash and "
+            "different-but-same-hash values occur. Every case is non-trivial; distinct = distinct traces.")
+
+def obs_prop(mods, expl, engines, extra_tb=(), extra_assump=()):
+    return {
+        "level": "proof",
+        "lean_modules": mods,
+        "engines": engines,
+        "rule": OBS_RULE,
+        "exhaustive": True,
+        "trusted_base": [KERNEL, CORR,
+                         "std::sync::RwLock / readlock::Shared modelled at operation granularity as mutual exclusion (one call = one atomic step); Arc strong/weak counts exact; Waker::wake only makes the task runnable; "
+                         "DefaultHasher gives different hashes for the different small inputs used"] + list(extra_tb),
+        "assumptions": ["element type instantiated to a u64 wrapper (Eq on v%8, Hash on v/8) in the correspondence runs; the theorems quantify over every type, equality and hash function",
+                        "u64 overflow of the version counter not modelled (2^64 updates)"] + list(extra_assump),
+        "explanation": expl,
+    }
+
+PROPS.update({
+    "C01": dict(obs_prop(["EyeballVerif.Props.C01", "EyeballVerif.Lemmas.ObsInv"],
+        "oinv_step / oinv_run: the invariant (observed <= version, observed < version <-> ghost flag 'has something it was not shown', closed <-> no owner, Arc counters = handle counts, parked -> registered) is "
+        "preserved by every call; c01_poll_spec: the poll answer is End / Ready(latest) / Pending exactly per the ghost specification in every reachable world; c01_ready_clears, c01_write_marks, "
+        "c01_set_if_not_eq, c01_set_if_hash_not_eq, c01_update_if, c01_next_now_marks, c01_get_latest", [{"name": "obs"}]),
+        claim=("Lean 4: the specification 'has something it was not shown' is a ghost flag per subscriber (set by notifying updates, reset, subscribe_reset, clone_reset; copied by clone; cleared by a ready poll, "
+               "next_now, subscribe); oinv_run proves by induction over arbitrary call sequences (all 13 kinds of calls, any number of subscribers/clones/weak references) that the code's version-counter "
+               "mechanism computes exactly this flag; c01_poll_spec: a poll is End iff closed, else Ready(latest value) iff flagged, else Pending; c01_ready_clears: delivered once; the setters' decision logic "
+               "is stated outright (c01_set_if_not_eq, c01_set_if_hash_not_eq, c01_update_if, c01_write_marks). Tied to the code by exhaustive + random differential runs with an independent specification-level oracle."),
+        technique="Lean 4 proof (invariant by induction over call sequences, refinement to a ghost-flag specification) + model/implementation correspondence",
+        design_ref="DESIGN.md §6 C01"),
+    "C19": dict(obs_prop(["EyeballVerif.Props.C19"],
+        "c19_counts_exact: in every reachable world the counters computed from the Arc counts equal the numbers of live clones / subscribers / their sum / weak references; Observable::subscriber_count = live subscribers",
+        [{"name": "obs"}, {"name": "obsasync"}]),
+        claim=("Lean 4 theorem c19_counts_exact (from the invariant oinv_run, which tracks the Arc strong/weak counters through every call): observable_count, subscriber_count, strong_count, weak_count and "
+               "Observable::subscriber_count are exact in every reachable world of the default flavour. The async-lock flavour counts two references per subscriber (known finding D8: the model carries the extra "
+               "reference and the correspondence confirms the implementation does exactly that; the count oracle for async is evaluated only in the confirmation cases). Tied to the code by reading the counters "
+               "after the histories of the obs engine, both flavours."),
+        technique="Lean 4 proof (counter invariant by induction over call sequences) + model/implementation correspondence in both lock flavours",
+        design_ref="DESIGN.md §6 C19"),
+})
+
 ENGINES = [
     {"name": "diff", "path": "harness/src/eng_diff.rs", "serves_properties": ["C18"],
      "kind_free_text": "differential correspondence (real VectorDiff vs Lean model) + implementation-side oracle"},
@@ -183,4 +227,8 @@ ENGINES = [
      "kind_free_text": "differential correspondence (real ObservableVector/subscriber streams vs Lean model OV) + implementation-side oracles (strict replica, plain-vector reference, pending-message ledger, wake flags)"},
     {"name": "adp", "path": "harness/src/eng_adp.rs", "serves_properties": ["C09", "C10", "C11", "C12", "C13", "C14", "C15"],
      "kind_free_text": "differential correspondence (real adapter pipelines vs Lean model Pipe) + implementation-side oracles on transparent taps between the stages"},
+    {"name": "obs", "path": "harness/src/eng_obs.rs", "serves_properties": ["C01", "C02", "C03", "C19"],
+     "kind_free_text": "differential correspondence (real Observable/SharedObservable/Subscriber, default lock flavour, vs Lean model OWorld) + specification-level oracle"},
+    {"name": "obsasync", "path": "harness/src/eng_obs.rs", "serves_properties": ["C16", "C19"],
+     "kind_free_text": "the same histories on the async-lock flavour, every future polled once by a hand-rolled executor, against the same Lean model"},
 ]
